@@ -3,7 +3,7 @@
 # (exclusive use of /repo: do not run soaks or vp runs at the same time)
 cd /verif
 fail=0
-for d in seeded/S*; do
+for d in seeded/${1:-S}*; do
   id=$(basename $d)
   props=$(python3 -c "import json;print(' '.join(json.load(open('$d/meta.json'))['breaks']))")
   git -C /repo apply /verif/$d/patch.diff || { echo "$id: PATCH DOES NOT APPLY"; fail=1; continue; }
